@@ -76,3 +76,34 @@ def _make_labware(name, rows, columns, min_volume, max_volume, initial_volumes, 
     res["own-volume-array"] = not (isinstance(initial_volumes, np.ndarray) and np.shares_memory(lw._volumes, initial_volumes))
     res["attributes"] = lw.name == name and lw.min_volume == min_volume and lw.max_volume == max_volume and lw.virtual_rows == virtual_rows
     return res
+
+
+def _make_trough(name, virtual_rows, columns, min_volume, max_volume, initial_volumes=0, column_names=None):
+    """builds a real Trough and evaluates the clauses of the Trough.__init__ contract on it"""
+    import numpy as np
+    from robotools import Trough
+
+    lw = Trough(name, virtual_rows, columns, min_volume=min_volume, max_volume=max_volume, initial_volumes=initial_volumes, column_names=column_names)
+    letters = "ABCDEFGHIJKLMNOPQRSTUVWXYZ"
+    nr = virtual_rows
+    ids = [[f"{letters[r]}{c + 1:02d}" for c in range(columns)] for r in range(nr)]
+    vols = [float(initial_volumes)] * columns if np.ndim(initial_volumes) == 0 else [float(v) for v in initial_volumes]
+    names = [None] * columns if column_names is None else ([column_names] if isinstance(column_names, str) else list(column_names))
+    res = {}
+    res["grid-ids"] = len(lw.row_ids) == nr and list(lw.column_ids) == list(range(1, columns + 1))
+    res["wells-array"] = lw.wells.shape == (nr, columns) and lw.wells.tolist() == ids
+    res["volumes-per-column"] = lw.volumes.shape == (1, columns) and lw.volumes[0].tolist() == vols
+    res["index-map"] = all(lw.indices[ids[r][c]] == (0, c) for r in range(nr) for c in range(columns))
+    res["index-map-nothing-else"] = set(lw.indices) == {w for row in ids for w in row}
+    res["positions"] = all(lw._positions[ids[r][c]] == 1 + c * nr + r for r in range(nr) for c in range(columns))
+    res["limits"] = 0 <= lw.min_volume < lw.max_volume and bool(np.all((lw.volumes >= 0) & (lw.volumes <= lw.max_volume) & np.isfinite(lw.volumes)))
+    res["history"] = len(lw.history) == 1 and lw.history[0][0] == "initial" and bool(np.array_equal(lw.history[0][1], lw.volumes)) and lw._history[0] is not lw._volumes
+    res["attributes"] = lw.name == name and lw.min_volume == min_volume and lw.max_volume == max_volume and lw.virtual_rows == virtual_rows
+    want = {}
+    for c, (given, v) in enumerate(zip(names, vols)):
+        if v != 0:
+            key = given if given is not None else (f"{name}.column_{c + 1:02d}" if columns > 1 else name)
+            want.setdefault(key, np.zeros((1, columns)))[0, c] = 1
+    comp = lw.composition
+    res["one-100%-component-per-filled-column"] = set(comp) == set(want) and all(np.array_equal(comp[k], want[k]) for k in want)
+    return res
